@@ -451,6 +451,12 @@ static int run_call(const Case *c, const char *cls, char *extra)
         if (!strcmp(cls, "N")) return ncmpi_del_att(ncid, 99, "units");
         if (!strcmp(cls, "diff")) return ncmpi_del_att(ncid, NC_GLOBAL, "title");
     }
+    if (!strcmp(api, "copy_att")) {
+        if (!strcmp(cls, "ok")) return ncmpi_copy_att(ncid, VF, "units", ncid, VG);
+        if (!strcmp(cls, "diff")) return ncmpi_copy_att(ncid, VF, "units", ncid, VR);
+        if (!strcmp(cls, "notatt")) return ncmpi_copy_att(ncid, VF, "nosuch", ncid, VG);
+        if (!strcmp(cls, "N")) return ncmpi_copy_att(ncid, 99, "units", ncid, VG);
+    }
     if (!strcmp(api, "def_dim")) {
         int d;
         if (!strcmp(cls, "ok")) return ncmpi_def_dim(ncid, "nd", 5, &d);
@@ -554,6 +560,13 @@ static int prepare(const Case *c, const char *cls)
     g_state = 0; g_nexp = 0; g_exp_numrecs = -1; g_nreq = 0; g_ncid = -1;
     if (!strcmp(pre, "none")) { g_state = 3; unlink(g_path); return 0; }           /* create on a fresh path */
     if (!strcmp(pre, "new")) { rc = setup_file(c, &ncid, 0); g_ncid = ncid; g_state = 2; return rc; }
+    if (!strcmp(pre, "empty")) {         /* a new file without dimensions and variables, still in define mode */
+        MPI_Info info = mk_info(c);
+        setenv("PNETCDF_SAFE_MODE", c->safe ? "1" : "0", 1);
+        rc = ncmpi_create(g_comm, g_path, NC_CLOBBER | NC_64BIT_DATA, info, &ncid);
+        if (info != MPI_INFO_NULL) MPI_Info_free(&info);
+        g_ncid = ncid; g_state = 2; return rc;
+    }
     rc = setup_file(c, &ncid, 1); g_ncid = ncid; if (rc) return rc;
     if (!strcmp(pre, "") || !strcmp(pre, "data")) return 0;
     if (!strcmp(pre, "closed")) { CK(ncmpi_close(ncid)); g_state = 3; return 0; }
